@@ -662,6 +662,10 @@ impl<'lexer> Lexer<'lexer> {
     let type_name_expected = self.type_name;
     self.type_name = false;
 
+    // the name of an iteration variable is expected only until the next name is consumed as well
+    let till_in = self.till_in;
+    self.till_in = false;
+
     // ------------------------------------------------------------------------
     // tweak with names that are being introduced
     // a name directly followed by a colon is the key of a context entry, a formal
@@ -686,14 +690,15 @@ impl<'lexer> Lexer<'lexer> {
     // tweak with the name in `for` and `quantified` expressions
     // variable name is the name before the keyword `in`
     // ------------------------------------------------------------------------
-    if self.till_in {
+    if till_in {
       if let Some(index) = parts.iter().position(|value| value == "in").filter(|index| *index > 0) {
-        self.till_in = false;
         parts.truncate(index);
         self.position = consumed_positions[index - 1] + 1;
         // return the name of the local variable before `in` keyword
         return Ok((TokenType::Name, TokenValue::Name(parts.to_vec().into())));
       }
+      // the name ended before the keyword `in` (a comment follows it): it is the variable name all the same
+      return Ok((TokenType::Name, TokenValue::Name(parts.to_vec().into())));
     }
 
     // begin with with the longest name containing all parts
